@@ -268,6 +268,7 @@ class Facts:
         self.moved = inline.canonicalise_modules(self.raw, voc, vf0, strip_lt) if voc is not None and self.raw.get("crate") == "regexml" else {}
         vs = inline.load_vocabulary_sigs()
         self.renamed_fns = inline.canonicalise_renamed_functions(self.raw, vs, strip_lt) if vs is not None and self.raw.get("crate") == "regexml" else {}
+        self.memos = inline.desugar_memos(self.raw, strip_lt) if voc is not None else []
         self.inlined = inline.inline_new_helpers(self.raw, voc, strip_lt) if voc is not None and self.raw.get("crate") == "regexml" else []
         self.desugared = inline.desugar_iterator_adaptors(self.raw, strip_lt) if voc is not None else []
         self.renamed_closures = inline.canonicalise_closures(self.raw) if (self.inlined or self.desugared) else {}
